@@ -22,7 +22,7 @@ LEVEL_NOTE = ("Sampling, not proof: 28 fixed types stand for the template univer
               "strict oracle (cppcms accepts only what the reference decoder accepts) is stronger than pure memory safety and trusts "
               "the 300-line reference codec; json text is parsed by cppcms' own parser on both sides (json is C11's subject); json "
               "numbers are restricted to exactly printable ones. The class of the defect this check found (a chunk overrunning "
-              "the end of the archive by 1..3 bytes was accepted; fixed in 867fed3) is searched again and its regression case runs on every run.")
+              "the end of the archive by 1..3 bytes was accepted; fixed in c0bed3f) is searched again and its regression case runs on every run.")
 DESIGN_REF = "3/C19"
 RULE = ("value: (type id of 28, <=900 (thorough 2400) source bytes) -> value; non-trivial when the value has dynamic nesting depth >= 2 "
         "or an empty container or a string containing NUL; distinct = hash(type, reference encoding). damage: every truncation of "
@@ -121,7 +121,7 @@ MUTATIONS = [
     dict(name="next_chunk_size-no-upper-bound", edits=[("src/archive.cpp", "if(size > buffer_.size() - ptr_ - 4)", "if(ptr_ + size < ptr_)")]),
     dict(name="pod-vector-load-n+1", edits=[("cppcms/archive_traits.h", "\t\t\tv.resize(n);\t\t\t\t\\\n", "\t\t\tv.resize(n+1);\t\t\t\t\\\n")]),
     dict(name="read_chunk-len-mismatch-lt", edits=[("src/archive.cpp", "if(next!=len)", "if(next<len)")]),
-    dict(name="revert-fix-867fed3-bound-ignores-length-field", edits=[("src/archive.cpp", "if(size > buffer_.size() - ptr_ - 4)", "if(ptr_ + size < ptr_ || ptr_ + size >=buffer_.size())")]),
+    dict(name="revert-fix-c0bed3f-bound-ignores-length-field", edits=[("src/archive.cpp", "if(size > buffer_.size() - ptr_ - 4)", "if(ptr_ + size < ptr_ || ptr_ + size >=buffer_.size())")]),
     dict(name="next_chunk_size-bound-off-by-one", edits=[("src/archive.cpp", "if(size > buffer_.size() - ptr_ - 4)", "if(size > buffer_.size() - ptr_ - 3)")]),
     dict(name="header-check-le-4-rejects-trailing-empty-chunk", edits=[("src/archive.cpp", "if(buffer_.size() - ptr_ < 4) {", "if(buffer_.size() - ptr_ <= 4) {")]),
     dict(name="header-check-dropped", edits=[("src/archive.cpp", "if(buffer_.size() - ptr_ < 4) {", "if(false) {")]),
